@@ -25,9 +25,11 @@ def run(c):
               "real GetOrCreateMultiItem/MergeWithTLMultiItem, inserted by the real rowDataMarshalAppendPositions; every row of the body is "
               "re-encoded by the model and compared byte for byte, the number of rows and the absence of unrequested rows are compared too. "
               "codec cases: appendArgMinMaxTag -> ColArgMin/MaxStringFloat32 (single value, and two result blocks through one column "
-              "object), ChUnique.MarshallAppend -> ColUnique (0..2000 values quick, up to 140000 thorough), AppendCentroids -> ColTDigest, "
+              "object), 2-4 result blocks through one ColTDigest / ColUnique (Reset + DecodeColumn per block as ch-go does, the reader keeps "
+              "every *TDigest / ChUnique copy it was handed as seriesQuery.valuesAt does, all kept rows compared after the last block), "
+              "ChUnique.MarshallAppend -> ColUnique (0..2000 values quick, up to 140000 thorough), AppendCentroids -> ColTDigest, "
               "float64/float32 images. Non-trivial = a (key, top) row with >= 2 contributions / second block decoded into reused slots / "
-              "sketch beyond the initial table / >= 2 centroids; distinct by op-sequence hash")
+              "multi-block column / sketch beyond the initial table / >= 2 centroids; distinct by op-sequence hash")
     c.assumptions += [
         "float64 is modelled exactly inside the exact domain only (integer values, counters/sums that are multiples of 1/4, |m| < 2^53); rounding outside it is not decided",
         "the random draw of AddCounterHost is modelled as the SET of hosts MaxCounterHostTag may hold; the row encoder receives the host the real item ended with and checks membership",
@@ -49,12 +51,17 @@ def run(c):
         rc, out = c.go_run(binary, [f"-n={c.n(300, 6000)}", "-mode=argcol"], timeout=3000)
         c.harness_ok(rc, out, "verif-c03 -mode=argcol")
         c.correspond(out, drv, label="argcol", timeout=3000)
+        # several result blocks through one ColTDigest / ColUnique, the reader keeps what earlier blocks handed out
+        for mode in ("tdcol", "uniqcol"):
+            rc, out = c.go_run(binary, [f"-n={c.n(250, 5000)}", f"-mode={mode}"], timeout=3000)
+            c.harness_ok(rc, out, f"verif-c03 -mode={mode}")
+            c.correspond(out, drv, label=mode, timeout=3000)
 
     def search():
         if not binary:
             return
         for k in range(1, 6):
-            for mode, n in (("", c.n(4000, 20000)), ("argcol", 2000), ("body", c.n(3000, 10000))):
+            for mode, n in (("", c.n(4000, 20000)), ("argcol", 2000), ("tdcol", 2000), ("uniqcol", 2000), ("body", c.n(3000, 10000))):
                 args = [f"-n={n}", f"-seed={c.seed + 1000 * k}"] + ([f"-mode={mode}"] if mode else [])
                 rc, out = c.go_run(binary, args, timeout=3000)
                 c.collect(out, label=mode)
@@ -69,11 +76,12 @@ META = {
                   "per-key merge of TL rows; differential correspondence byte for byte with the real insert body; direct big.Rat oracle on the body "
                   "decoded by the real column readers"),
     "text": ("Kernel-checked for all inputs: decode(encode x) = x for the uniq state, the t-digest centroid list and the argMin/argMax(String, Float32) state "
-             "(int and string hosts, empty state), also for a column read into reused slots; after merging any list of TL rows into a bucket every "
+             "(int and string hosts, empty state), also for a column read into reused slots, and for percentile/uniq result columns decoded block by block "
+             "through one column object (rows kept from earlier blocks are never changed by later blocks); after merging any list of TL rows into a bucket every "
              "(time, metric, tags, top) key is written exactly once (key columns are injective) and its count/sum/sum-of-squares/min/max are the fold of the "
              "contributions to that key; a sketch fed fewer distinct hashes than the exact-mode limit through MergeRead/MarshallAppend/ReadFrom keeps skipDegree 0 "
              "and reports exactly the number of distinct hashes. The model is tied to the code by re-encoding every row of real insert bodies byte for byte."),
-    "note": ("Trusted: Lean kernel; model<->code correspondence on generated cases (quick 1500, thorough 46000); float64 only inside the exact domain; "
+    "note": ("Trusted: Lean kernel; model<->code correspondence on generated cases (quick 2000, thorough 56000); float64 only inside the exact domain; "
              "hrissan/tdigest, rng draws and the sketch's table order are inputs of the model. Partial: one_row_per_key is per aggregator bucket (a body of several "
              "buckets may repeat a key, by design); sampling (budget binds), string-top resample and built-in metrics are not modelled. "
              "Defect found: argMin/argMax column readers kept fields of the previous result block in reused slots (fixes/C03-argminmax-stale-slot.diff); "
